@@ -202,7 +202,7 @@ Qed.
 (** non-vacuity: a state in which a loop is running and other threads are inside pulls *)
 Example wait_free_applies :
   let e := {| e_kind := KVec; e_adaptor := ANone; e_len := 5; e_start := 0; e_end := 0; e_hint := HExact;
-              e_owning := true; e_mode := Wrapping; e_crash := None |} in
+              e_owning := true; e_mode := Wrapping; e_crash := None; e_gap := fun _ => false |} in
   let progs := fun t => match t with 0%nat => [Loop LForEach 2 None] | 1%nat => [Next NVal; Chunk 2 1] | _ => [] end in
   let c := exec e (init progs) [0; 1; 0; 1]%nat in
   t_pc (c_pool c 0%nat) <> PIdle /\ budget e c 0%nat = 3%nat /\ t_pc (c_pool c 1%nat) = PIdle.
